@@ -1,5 +1,5 @@
 import BV.Lemmas.StreamExit
-import BV.Lemmas.StreamTerm3
+import BV.Lemmas.StreamTerm5
 import BV.Lemmas.StreamAbsorb
 /-
 Bridge from the stream-machine model (M8, `BV/Model/Stream.lean`, another worker's — imported, not
@@ -68,22 +68,36 @@ theorem slowStep_io {o : Oracle} {op : Nat} {s s' : St} {io io' : Io} {c : Ctl}
         obtain ⟨_, rfl, _⟩ := h
         exact ⟨Nat.le_of_eq p2, p1⟩
 
-theorem slowLoop_stalled {o : Oracle} {op B M fuel : Nat} {s s' : St} {io io' : Io} {r : Bool}
+/-- the bound on the staging buffer a state carries by itself (no input on offer): what the buffer
+is, or what `get_brotli_storage` is asked for when the unflushed bytes are encoded -/
+def stateCap (s : St) : Nat := max s.storageSize (2 * (s.inputPos - s.lastFlushPos) + 527)
+
+theorem mcap_stateCap (s : St) : MCap (stateCap s) s := ⟨Nat.le_max_left _ _, Nat.le_max_right _ _⟩
+
+theorem stateCap_le_of_mcap {M : Nat} {s : St} (h : MCap M s) : stateCap s ≤ M := Nat.max_le.mpr ⟨h.1, h.2⟩
+
+theorem callCap_zero (s : St) : callCap s 0 = stateCap s := by
+  unfold callCap stateCap
+  simp
+
+theorem slowLoop_stalled {o : Oracle} {op M K fuel : Nat} {s s' : St} {io io' : Io} {r : Bool}
     (hop : op ≤ 2) (hI : Inv s) (hrm : s.remainingMetadata = u32Max) (hw : s.inputPos + io.availIn < two64)
     (hacc : s.streamState ≠ .processing → io.availIn = 0)
-    (hB : OracleBounded o B) (hM : (14 + 176 + B) / 8 ≤ M) (hl : s.lastBytesBits ≤ 14)
+    (hC : Cap M s io) (hK : MCap K s) (hl : s.lastBytesBits ≤ 14)
     (h : slowLoop o op fuel s io = .ok (s', io', r)) :
     r = true ∧ io'.availIn ≤ io.availIn ∧ io'.out.length + io'.availOut = io.out.length + io.availOut ∧
     ∃ s1, s' = checkFlushComplete s1 ∧ slowStep o op s1 io' = .ok (s1, io', .brk) ∧
       SlowInv op s.streamState io.availIn (s.inputPos + io.availIn) s1 io' ∧ s1.lastBytesBits ≤ 14 ∧
-      (io'.availIn = io.availIn → (s1 = s ∧ io' = io) ∨ slowPot op M s1 io' < slowPot op M s io) := by
+      (io'.availIn = io.availIn → (s1 = s ∧ io' = io) ∨ slowPot op M s1 io' < slowPot op M s io) ∧
+      (io'.availIn = io.availIn → MCap K s1) := by
   let P : St → Io → Prop := fun t tio =>
     SlowInv op s.streamState io.availIn (s.inputPos + io.availIn) t tio ∧ t.lastBytesBits ≤ 14 ∧
     tio.availIn ≤ io.availIn ∧ tio.out.length + tio.availOut = io.out.length + io.availOut ∧
-    (tio.availIn = io.availIn → (t = s ∧ tio = io) ∨ slowPot op M t tio < slowPot op M s io)
-  have hP0 : P s io := ⟨⟨hI, rfl, hw, hrm, Nat.le_refl _, hacc, Or.inl rfl⟩, hl, Nat.le_refl _, rfl, fun _ => Or.inl ⟨rfl, rfl⟩⟩
+    (tio.availIn = io.availIn → (t = s ∧ tio = io) ∨ slowPot op M t tio < slowPot op M s io) ∧
+    Cap M t tio ∧ (tio.availIn = io.availIn → MCap K t)
+  have hP0 : P s io := ⟨⟨hI, rfl, hw, hrm, Nat.le_refl _, hacc, Or.inl rfl⟩, hl, Nat.le_refl _, rfl, fun _ => Or.inl ⟨rfl, rfl⟩, hC, fun _ => hK⟩
   have hstep : ∀ t tio t' tio' c, P t tio → slowStep o op t tio = .ok (t', tio', c) → c ≠ .fail ∧ P t' tio' := by
-    intro t tio t' tio' c ⟨p1, p2, p3, p4, p5⟩ hs
+    intro t tio t' tio' c ⟨p1, p2, p3, p4, p5, p6, p7⟩ hs
     obtain ⟨c1, c2⟩ := slowInv_step p1 hs
     obtain ⟨q1, q2⟩ := slowStep_io hs
     refine ⟨c1, ?_⟩
@@ -92,7 +106,7 @@ theorem slowLoop_stalled {o : Oracle} {op B M fuel : Nat} {s s' : St} {io io' : 
     | brk =>
       obtain ⟨e1, e2, _⟩ := slowStep_brk hs
       subst e1 e2
-      exact ⟨p1, p2, p3, p4, p5⟩
+      exact ⟨p1, p2, p3, p4, p5, p6, p7⟩
     | cont =>
       have hwt : t.inputPos + tio.availIn < two64 := by rw [p1.sum]; exact p1.nowrap
       have hnp : t.streamState ≠ .processing → tio.availIn = 0 := by
@@ -100,16 +114,21 @@ theorem slowLoop_stalled {o : Oracle} {op B M fuel : Nat} {s s' : St} {io io' : 
         rcases p1.st with h1 | ⟨_, h2, _⟩
         · exact p1.nonproc (by rw [← h1]; exact hne)
         · exact h2
-      obtain ⟨d1, d2⟩ := slowStep_decreases p1.inv hwt hnp hB hM p2 hop hs
-      refine ⟨c2, d2, Nat.le_trans q1 p3, by rw [q2, p4], ?_⟩
-      intro heq
-      right
-      have : tio.availIn = io.availIn := by omega
-      rcases p5 this with ⟨e1, e2⟩ | hlt
-      · subst e1 e2; exact d1
-      · exact Nat.lt_trans d1 hlt
-  obtain ⟨hr, s1, ⟨p1, p2, p3, p4, p5⟩, hs', hbrk⟩ := slowLoop_exit P hstep fuel s io s' io' r hP0 h
-  exact ⟨hr, p3, p4, s1, hs', hbrk, p1, p2, p5⟩
+      obtain ⟨dM, _, d2⟩ := slowStep_decreases (M := M) p1.inv hwt hnp p2 hop hs
+      obtain ⟨_, dK, _⟩ := slowStep_decreases (M := K) p1.inv hwt hnp p2 hop hs
+      obtain ⟨d1, d3⟩ := dM p6
+      refine ⟨c2, d2, Nat.le_trans q1 p3, by rw [q2, p4], ?_, d3, ?_⟩
+      · intro heq
+        right
+        have : tio.availIn = io.availIn := by omega
+        rcases p5 this with ⟨e1, e2⟩ | hlt
+        · subst e1 e2; exact d1
+        · exact Nat.lt_trans d1 hlt
+      · intro heq
+        have h1 : tio.availIn = io.availIn := by omega
+        exact dK (p7 h1) (by omega)
+  obtain ⟨hr, s1, ⟨p1, p2, p3, p4, p5, _, p7⟩, hs', hbrk⟩ := slowLoop_exit P hstep fuel s io s' io' r hP0 h
+  exact ⟨hr, p3, p4, s1, hs', hbrk, p1, p2, p5, p7⟩
 theorem fastStep_io {o : Oracle} {op : Nat} {s s' : St} {io io' : Io} {b : Bool}
     (h : fastStep o op s io = .ok (s', io', b)) :
     io'.out.length + io'.availOut = io.out.length + io.availOut := by
@@ -156,22 +175,24 @@ theorem fastStep_io {o : Oracle} {op : Nat} {s s' : St} {io io' : Io} {b : Bool}
     · simp only [Out.ok.injEq, Prod.mk.injEq] at h
       obtain ⟨_, rfl, _⟩ := h
       exact p1
-theorem fastLoop_stalled {o : Oracle} {op B M fuel : Nat} {s s' : St} {io io' : Io}
+theorem fastLoop_stalled {o : Oracle} {op M K fuel : Nat} {s s' : St} {io io' : Io}
     (hop : op ≤ 2) (hI : Inv s) (hrm : s.remainingMetadata = u32Max) (hfm : fastMode s.params)
     (hacc : s.streamState ≠ .processing → io.availIn = 0)
-    (hB : OracleBounded o B) (hM : (14 + 176 + B) / 8 ≤ M) (hl : s.lastBytesBits ≤ 14)
+    (hC : Cap M s io) (hK : MCap K s) (hl : s.lastBytesBits ≤ 14)
     (h : fastLoop o op fuel s io = .ok (s', io')) :
     io'.availIn ≤ io.availIn ∧ io'.out.length + io'.availOut = io.out.length + io.availOut ∧
     fastStep o op s' io' = .ok (s', io', false) ∧
     FastInv op s.streamState io.availIn s' io' ∧ s'.lastBytesBits ≤ 14 ∧
-    (io'.availIn = io.availIn → (s' = s ∧ io' = io) ∨ fastPot M s' io' < fastPot M s io) := by
+    (io'.availIn = io.availIn → (s' = s ∧ io' = io) ∨ fastPot M s' io' < fastPot M s io) ∧
+    (io'.availIn = io.availIn → MCap K s') := by
   let P : St → Io → Prop := fun t tio =>
     FastInv op s.streamState io.availIn t tio ∧ t.lastBytesBits ≤ 14 ∧
     tio.availIn ≤ io.availIn ∧ tio.out.length + tio.availOut = io.out.length + io.availOut ∧
-    (tio.availIn = io.availIn → (t = s ∧ tio = io) ∨ fastPot M t tio < fastPot M s io)
-  have hP0 : P s io := ⟨⟨hI, hfm, hrm, Nat.le_refl _, hacc, Or.inl rfl⟩, hl, Nat.le_refl _, rfl, fun _ => Or.inl ⟨rfl, rfl⟩⟩
+    (tio.availIn = io.availIn → (t = s ∧ tio = io) ∨ fastPot M t tio < fastPot M s io) ∧
+    Cap M t tio ∧ (tio.availIn = io.availIn → MCap K t)
+  have hP0 : P s io := ⟨⟨hI, hfm, hrm, Nat.le_refl _, hacc, Or.inl rfl⟩, hl, Nat.le_refl _, rfl, fun _ => Or.inl ⟨rfl, rfl⟩, hC, fun _ => hK⟩
   have hstep : ∀ t tio t' tio' b, P t tio → fastStep o op t tio = .ok (t', tio', b) → P t' tio' := by
-    intro t tio t' tio' b ⟨p1, p2, p3, p4, p5⟩ hs
+    intro t tio t' tio' b ⟨p1, p2, p3, p4, p5, p6, p7⟩ hs
     have c2 := fastInv_step p1 hs
     have q1 := (fastStep_spec p1.inv p1.fm hs).2.2.1
     have q2 := fastStep_io hs
@@ -179,18 +200,23 @@ theorem fastLoop_stalled {o : Oracle} {op B M fuel : Nat} {s s' : St} {io io' : 
     | false =>
       obtain ⟨e1, e2, _⟩ := fastStep_brk hs
       subst e1 e2
-      exact ⟨p1, p2, p3, p4, p5⟩
+      exact ⟨p1, p2, p3, p4, p5, p6, p7⟩
     | true =>
-      obtain ⟨d1, d2⟩ := fastStep_decreases hB hM p2 hop hs
-      refine ⟨c2, d2, Nat.le_trans q1 p3, by rw [q2, p4], ?_⟩
-      intro heq
-      right
-      have : tio.availIn = io.availIn := by omega
-      rcases p5 this with ⟨e1, e2⟩ | hlt
-      · subst e1 e2; exact d1
-      · exact Nat.lt_trans d1 hlt
-  obtain ⟨⟨p1, p2, p3, p4, p5⟩, hbrk⟩ := fastLoop_exit P hstep fuel s io s' io' hP0 h
-  exact ⟨p3, p4, hbrk, p1, p2, p5⟩
+      obtain ⟨dM, _, d2⟩ := fastStep_decreases (M := M) p2 hop hs
+      obtain ⟨_, dK, _⟩ := fastStep_decreases (M := K) p2 hop hs
+      obtain ⟨d1, d3⟩ := dM p6
+      refine ⟨c2, d2, Nat.le_trans q1 p3, by rw [q2, p4], ?_, d3, ?_⟩
+      · intro heq
+        right
+        have : tio.availIn = io.availIn := by omega
+        rcases p5 this with ⟨e1, e2⟩ | hlt
+        · subst e1 e2; exact d1
+        · exact Nat.lt_trans d1 hlt
+      · intro heq
+        have h1 : tio.availIn = io.availIn := by omega
+        exact dK (p7 h1) (by omega)
+  obtain ⟨⟨p1, p2, p3, p4, p5, _, p7⟩, hbrk⟩ := fastLoop_exit P hstep fuel s io s' io' hP0 h
+  exact ⟨p3, p4, hbrk, p1, p2, p5, p7⟩
 /-- what holds of an encoder state between two API calls outside a metadata block -/
 structure Good (s : St) : Prop where
   inv : Inv s
@@ -198,13 +224,14 @@ structure Good (s : St) : Prop where
   lbb : s.lastBytesBits ≤ 14
   quiet : s.streamState = .flushRequested → s.pending.length ≠ 0
 
-/-- cross-call rank for PROCESS / FINISH requests -/
-def rankPF (M : Nat) (s : St) : Nat :=
-  (if s.streamState = .finished then 0 else 1) * (M + 8) + padB s + s.pending.length
+/-- cross-call rank for PROCESS / FINISH requests: a function of the STATE alone (`stateCap s` bounds what
+the one encode still due can leave pending; it does not grow in a call that consumes nothing) -/
+def rankPF (s : St) : Nat :=
+  (if s.streamState = .finished then 0 else 1) * (stateCap s + 8) + padB s + s.pending.length
 
 /-- cross-call rank for FLUSH requests -/
-def rankFl (M : Nat) (s : St) : Nat :=
-  (if s.streamState = .processing then 1 else 0) * (M + 8) + padB s + s.pending.length
+def rankFl (s : St) : Nat :=
+  (if s.streamState = .processing then 1 else 0) * (stateCap s + 8) + padB s + s.pending.length
 
 /-- the facts both loops deliver at their exit, in one shape: `c` is the 0/1 "an encode is due"
 indicator of the loop's potential -/
@@ -222,17 +249,19 @@ structure ExitFacts (op M cap : Nat) (s : St) (a : Nat) (s1 : St) (io' : Io) (c0
   c1val : (op ≠ 0 ∨ a ≠ 0) → io'.availIn = a → c1 = (if s1.streamState = .processing then 1 else 0)
   pot : io'.availIn = a → (s1 = s ∧ io'.availOut = cap) ∨
         c1 * (M + 8) + padB s1 + s1.pending.length < c0 * (M + 8) + padB s + s.pending.length
+  kmono : io'.availIn = a → stateCap s1 ≤ stateCap s
 
 theorem stall_of_exit {op M cap a c0 c1 : Nat} {s s1 : St} {io' : Io} (hG : Good s)
-    (hacc : s.streamState ≠ .processing → a = 0)
+    (hacc : s.streamState ≠ .processing → a = 0) (hM0 : a = 0 → M = stateCap s)
     (hE : ExitFacts op M cap s a s1 io' c0 c1) :
     Good (checkFlushComplete s1) ∧ (0 < cap → io'.availIn = a →
-    (op = 0 → a ≠ 0 → rankPF M (checkFlushComplete s1) < rankPF M s) ∧
-    (op = 2 → a = 0 → isFinished (checkFlushComplete s1) = false → rankPF M (checkFlushComplete s1) < rankPF M s) ∧
-    (op = 1 → a = 0 → hasMoreOutput (checkFlushComplete s1) = true → rankFl M (checkFlushComplete s1) < rankFl M s)) := by
-  obtain ⟨k1, k2, k3, k4, k5, k6, k7, k8, k9, k10, _⟩ := checkFlushComplete_frame s1
+    (op = 0 → a ≠ 0 → rankPF (checkFlushComplete s1) < rankPF s) ∧
+    (op = 2 → a = 0 → isFinished (checkFlushComplete s1) = false → rankPF (checkFlushComplete s1) < rankPF s) ∧
+    (op = 1 → a = 0 → hasMoreOutput (checkFlushComplete s1) = true → rankFl (checkFlushComplete s1) < rankFl s)) := by
+  obtain ⟨k1, k2, k3, k4, k5, k6, k7, k8, k9, k10, k11, k12⟩ := checkFlushComplete_frame s1
   have hst := checkFlushComplete_state s1
   have hpadB : padB (checkFlushComplete s1) = padB s1 := by unfold padB; rw [k10]
+  have hKc : stateCap (checkFlushComplete s1) = stateCap s1 := by unfold stateCap; rw [k2, k5, k12]
   have hnmd : ∀ t : St, Inv t → t.remainingMetadata = u32Max → t.streamState = .processing ∨ t.streamState = .flushRequested ∨ t.streamState = .finished := by
     intro t hI hrm
     cases hs : t.streamState
@@ -251,6 +280,7 @@ theorem stall_of_exit {op M cap a c0 c1 : Nat} {s s1 : St} {io' : Io} (hG : Good
     · rw [if_neg hc] at hfl; intro h0; exact hc ⟨hfl, h0⟩
   refine ⟨hgood, ?_⟩
   intro hcap hcons
+  have hkm := hE.kmono hcons
   refine ⟨?_, ?_, ?_⟩
   · -- PROCESS with input on offer
     intro h0 ha
@@ -268,7 +298,7 @@ theorem stall_of_exit {op M cap a c0 c1 : Nat} {s s1 : St} {io' : Io} (hG : Good
     rcases hE.pot hcons with ⟨e1, e2⟩ | hlt
     · exact absurd e2 (by have := hE.noPush; omega)
     · unfold rankPF
-      rw [hst', hs0, hpadB, k8]
+      rw [hst', hs0, hpadB, k8, hKc]
       rw [hc1, hs1] at hlt
       have := hE.c0le
       simp only [if_true] at hlt
@@ -278,6 +308,8 @@ theorem stall_of_exit {op M cap a c0 c1 : Nat} {s s1 : St} {io' : Io} (hG : Good
       omega
   · -- FINISH
     intro h2 ha hnf
+    have hMe := hM0 ha
+    subst hMe
     have hc1 := hE.c1val (Or.inl (by omega)) hcons
     have hc0 := hE.c0proc (by omega) ha
     rcases hE.pot hcons with ⟨e1, e2⟩ | hlt
@@ -292,14 +324,14 @@ theorem stall_of_exit {op M cap a c0 c1 : Nat} {s s1 : St} {io' : Io} (hG : Good
           unfold isFinished; rw [hst, k8, h]; simp [hp]
         rw [this] at hnf; cases hnf
     · unfold rankPF
-      rw [hpadB, k8, hst]
+      rw [hpadB, k8, hst, hKc]
       rw [hc1, hc0] at hlt
       rcases hnmd s hG.inv hG.rm with h | h | h
       · -- from PROCESSING: the loop ends in PROCESSING or FINISHED
         rw [h] at hlt ⊢
         simp only [if_true, reduceCtorEq, if_false] at hlt ⊢
         rcases hE.st with h1 | ⟨_, _, h1⟩
-        · rw [h] at h1; rw [h1] at hlt ⊢; simp only [if_true, reduceCtorEq, false_and, if_false] at hlt ⊢; exact hlt
+        · rw [h] at h1; rw [h1] at hlt ⊢; simp only [if_true, reduceCtorEq, false_and, if_false] at hlt ⊢; omega
         · rcases h1 with ⟨h1, _⟩ | ⟨_, h1⟩
           · omega
           · rw [h1] at hlt ⊢; simp only [reduceCtorEq, if_false, false_and, if_true] at hlt ⊢; omega
@@ -321,6 +353,8 @@ theorem stall_of_exit {op M cap a c0 c1 : Nat} {s s1 : St} {io' : Io} (hG : Good
         omega
   · -- FLUSH
     intro h1 ha hmore
+    have hMe := hM0 ha
+    subst hMe
     have hc1 := hE.c1val (Or.inl (by omega)) hcons
     have hc0 := hE.c0proc (by omega) ha
     have hp1 : s1.pending.length ≠ 0 := by
@@ -330,18 +364,23 @@ theorem stall_of_exit {op M cap a c0 c1 : Nat} {s s1 : St} {io' : Io} (hG : Good
     · unfold rankFl
       have hflip : (if s1.streamState = .flushRequested ∧ s1.pending.length = 0 then SState.processing else s1.streamState) = s1.streamState :=
         if_neg (fun hh => hp1 hh.2)
-      rw [hpadB, k8, hst, hflip]
+      rw [hpadB, k8, hst, hflip, hKc]
       rw [hc1, hc0] at hlt
-      exact hlt
+      have hmul : (if s1.streamState = .processing then 1 else 0) * (stateCap s1 + 8)
+          ≤ (if s1.streamState = .processing then 1 else 0) * (stateCap s + 8) := Nat.mul_le_mul_left _ (by omega)
+      generalize (if s1.streamState = .processing then 1 else 0) * (stateCap s1 + 8) = A at *
+      generalize (if s1.streamState = .processing then 1 else 0) * (stateCap s + 8) = B at *
+      omega
 
 theorem exitFacts_slow {o : Oracle} {op M cap : Nat} {s s1 : St} {io io' : Io}
     (hio : io.availOut = cap)
     (hS : SlowInv op s.streamState io.availIn (s.inputPos + io.availIn) s1 io') (hl : s1.lastBytesBits ≤ 14)
     (hbrk : slowStep o op s1 io' = .ok (s1, io', .brk))
-    (hpot : io'.availIn = io.availIn → (s1 = s ∧ io' = io) ∨ slowPot op M s1 io' < slowPot op M s io) :
+    (hpot : io'.availIn = io.availIn → (s1 = s ∧ io' = io) ∨ slowPot op M s1 io' < slowPot op M s io)
+    (hkm : io'.availIn = io.availIn → MCap (stateCap s) s1) :
     ExitFacts op M cap s io.availIn s1 io' (if canEnc op s io then 1 else 0) (if canEnc op s1 io' then 1 else 0) := by
   obtain ⟨_, _, b1, b2, b3, b4⟩ := slowStep_brk hbrk
-  refine ⟨hS.inv, hS.rm, hl, hS.st, b2, b3, by split <;> omega, ?_, ?_, ?_, ?_⟩
+  refine ⟨hS.inv, hS.rm, hl, hS.st, b2, b3, by split <;> omega, ?_, ?_, ?_, ?_, fun hav => stateCap_le_of_mcap (hkm hav)⟩
   · intro hop ha
     by_cases hp : s.streamState = .processing
     · have hce : canEnc op s io := by unfold canEnc; exact ⟨hp, Or.inr ⟨hop, ha⟩⟩
@@ -385,10 +424,11 @@ theorem exitFacts_fast {o : Oracle} {op M cap : Nat} {s s1 : St} {io io' : Io}
     (hio : io.availOut = cap)
     (hS : FastInv op s.streamState io.availIn s1 io') (hl : s1.lastBytesBits ≤ 14)
     (hbrk : fastStep o op s1 io' = .ok (s1, io', false))
-    (hpot : io'.availIn = io.availIn → (s1 = s ∧ io' = io) ∨ fastPot M s1 io' < fastPot M s io) :
+    (hpot : io'.availIn = io.availIn → (s1 = s ∧ io' = io) ∨ fastPot M s1 io' < fastPot M s io)
+    (hkm : io'.availIn = io.availIn → MCap (stateCap s) s1) :
     ExitFacts op M cap s io.availIn s1 io' (if s.streamState = .processing then 1 else 0) (if s1.streamState = .processing then 1 else 0) := by
   obtain ⟨_, _, b2, b3, b4⟩ := fastStep_brk hbrk
-  refine ⟨hS.inv, hS.rm, hl, hS.st, b2, b3, by split <;> omega, fun _ _ => rfl, ?_, fun _ _ => rfl, ?_⟩
+  refine ⟨hS.inv, hS.rm, hl, hS.st, b2, b3, by split <;> omega, fun _ _ => rfl, ?_, fun _ _ => rfl, ?_, fun hav => stateCap_le_of_mcap (hkm hav)⟩
   · intro hp hor hav hz
     apply b4
     refine ⟨hz, hp, ?_⟩
@@ -408,16 +448,19 @@ theorem good_updateSizeHint {s : St} (hG : Good s) (n : Nat) : Good (updateSizeH
   exact ⟨inv_updateSizeHint hG.inv n, f7.trans hG.rm, by rw [f14]; exact hG.lbb, by rw [f9, f13]; exact hG.quiet⟩
 
 /-- one PROCESS / FLUSH / FINISH call from a good state: cursors balanced, good state again, and —
-if it was accepted, had output room and consumed nothing — the rank of the request kind went down -/
-theorem call_good {o : Oracle} {op B M cap fuel : Nat} {input : Bytes} {s s' : St} {io' : Io} {r : Bool}
+if it was accepted, had output room and consumed nothing — the rank of the request kind went down.
+No hypothesis on the oracle: the potential runs with the per-call storage bound `callCap`. -/
+theorem call_good {o : Oracle} {op cap fuel : Nat} {input : Bytes} {s s' : St} {io' : Io} {r : Bool}
     (hop : op ≤ 2) (hG : Good s) (hw : s.inputPos + input.length < two64)
-    (hB : OracleBounded o B) (hM : (14 + 176 + B) / 8 ≤ M)
     (h : compressStream o fuel s op input cap = .ok (s', io', r)) :
     io'.out.length + io'.availOut = cap ∧ io'.availIn ≤ input.length ∧ Good s' ∧
     (r = true → 0 < cap → io'.availIn = input.length →
-      (op = 0 → input.length ≠ 0 → rankPF M s' < rankPF M s) ∧
-      (op = 2 → input.length = 0 → isFinished s' = false → rankPF M s' < rankPF M s) ∧
-      (op = 1 → input.length = 0 → hasMoreOutput s' = true → rankFl M s' < rankFl M s)) := by
+      (op = 0 → input.length ≠ 0 → rankPF s' < rankPF s) ∧
+      (op = 2 → input.length = 0 → isFinished s' = false → rankPF s' < rankPF s) ∧
+      (op = 1 → input.length = 0 → hasMoreOutput s' = true → rankFl s' < rankFl s)) := by
+  have hC := cap_callCap s input cap
+  have hM0 : input.length = 0 → callCap s input.length = stateCap s := by
+    intro h0; rw [h0]; exact callCap_zero s
   cases r with
   | false =>
     obtain ⟨hs, hio⟩ := refused_unchanged (by omega) hG.inv hw h
@@ -454,18 +497,18 @@ theorem call_good {o : Oracle} {op B M cap fuel : Nat} {input : Bytes} {s s' : S
           · rename_i s1 io1 hl
             simp only [Out.ok.injEq, Prod.mk.injEq] at h
             obtain ⟨rfl, rfl, _⟩ := h
-            obtain ⟨q1, q2, q3, q4, q5, q6⟩ := fastLoop_stalled (io := { input := input, availIn := input.length, availOut := cap }) hop hI hrm hfm hacc hB hM hG.lbb hl
-            have hE := exitFacts_fast (M := M) (cap := cap) (io := { input := input, availIn := input.length, availOut := cap }) rfl q4 q5 q3 q6
-            obtain ⟨g1, g2⟩ := stall_of_exit hG (a := input.length) hacc hE
+            obtain ⟨q1, q2, q3, q4, q5, q6, q7⟩ := fastLoop_stalled (io := { input := input, availIn := input.length, availOut := cap }) hop hI hrm hfm hacc hC (mcap_stateCap s) hG.lbb hl
+            have hE := exitFacts_fast (M := callCap s input.length) (cap := cap) (io := { input := input, availIn := input.length, availOut := cap }) rfl q4 q5 q3 q6 q7
+            obtain ⟨g1, g2⟩ := stall_of_exit hG (a := input.length) hacc hM0 hE
             refine ⟨by simpa using q2, q1, g1, ?_⟩
             intro _ hcap hcons
             exact g2 hcap hcons
           · simp at h
           · simp at h
-      · obtain ⟨q0, q1, q2, s1, e1, q3, q4, q5, q6⟩ := slowLoop_stalled (io := { input := input, availIn := input.length, availOut := cap }) hop hI hrm hw hacc hB hM hG.lbb h
+      · obtain ⟨q0, q1, q2, s1, e1, q3, q4, q5, q6, q7⟩ := slowLoop_stalled (io := { input := input, availIn := input.length, availOut := cap }) hop hI hrm hw hacc hC (mcap_stateCap s) hG.lbb h
         subst e1
-        have hE := exitFacts_slow (M := M) (cap := cap) (io := { input := input, availIn := input.length, availOut := cap }) rfl q4 q5 q3 q6
-        obtain ⟨g1, g2⟩ := stall_of_exit hG (a := input.length) hacc hE
+        have hE := exitFacts_slow (M := callCap s input.length) (cap := cap) (io := { input := input, availIn := input.length, availOut := cap }) rfl q4 q5 q3 q6 q7
+        obtain ⟨g1, g2⟩ := stall_of_exit hG (a := input.length) hacc hM0 hE
         refine ⟨by simpa using q2, q1, g1, ?_⟩
         intro _ hcap hcons
         exact g2 hcap hcons
